@@ -311,6 +311,43 @@ def task_iterative(pr, repo):
         pr.explore(ex, thunk, 'iterative.add_determinants %s' % labels)
 
 
+def task_iterative_sweeps(pr, repo):
+    """IS (relational): how often a cluster that does not converge is swept - and hence the values it ends with - does not depend on
+    how many OTHER iterative groups (of a far-away part) are in the same conformation."""
+    ex = Executor(repo)
+    IT = 'propka.iterative.'
+    fi = repo.func(IT + 'add_determinants')
+    ItCls = repo.cls(IT + 'Iterative')
+
+    def thunk(ex, ctx):
+        outcomes = []
+        for extra in (0, 30):
+            gs = [C02.mkgroup(repo, 'g%d' % i, (0, 0, 0), label='G%03d' % i, residue_type='ASP', charge=-1.0) for i in range(2 + 2 * extra)]
+            for g in gs:
+                g.attrs['atom'].attrs['type'] = 'atom'
+            inter = [[[gs[2 * k], gs[2 * k + 1]], [0.0, 0.0], [0.0, 0.0]] for k in range(1 + extra)]
+
+            def it_contract(ex_, ctx_, ci, a, k, so):
+                return record('it_%s' % a[0].name, ItCls, group=a[0], label=a[0].attrs['label'], atom=a[0].attrs['atom'], q=-1.0,
+                              pka_old=0.0, pka_new=0.0, pka_iter=[], pka_noniterative=0.0, converged=True,
+                              determinants={'sidechain': [], 'backbone': [], 'coulomb': []})
+            ex.contracts[IT + 'Iterative'] = it_contract
+            sweeps = [0]
+
+            def acid(ex_, ctx_, fi_, a, k, so):
+                # the pair (g0, g1) flips between two states from sweep to sweep (never converges); every other pair is inert
+                if a[0].attrs['group'] is gs[0]:
+                    sweeps[0] += 1
+                    a[0].attrs['determinants']['coulomb'].append([a[1], float(sweeps[0] % 2)])
+            ex.contracts[IT + 'add_iterative_acid_pair'] = acid
+            ex.contracts[IT + 'add_to_determinant_list'] = lambda ex_, ctx_, fi_, a, k, so: None
+            ex.call_function(fi, [inter, record('version', None)])
+            outcomes.append(sweeps[0])
+        ctx.oblige('IS: a non-converging pair is swept equally often (here %s times) with 0 and with 60 other iterative groups in the '
+                   'conformation' % outcomes[0], outcomes[0] == outcomes[1] and outcomes[0] >= 2)
+    pr.explore(ex, thunk, 'iterative sweeps vs number of groups')
+
+
 def task_probe_far(pr, repo):
     ex = Executor(repo)
     N = 'propka.coupled_groups.NonCovalentlyCoupledGroups'
@@ -384,7 +421,7 @@ def run(pr, repo):
     cuts += [v[2] for v in list(p.backbone_CO_hydrogen_bond.values()) + list(p.backbone_NH_hydrogen_bond.values())]
     pr.add(Ground('GR: every cut-off of the shipped parameter file is <= 20 A (largest: %s)' % max(cuts), max(cuts) <= 20.0))
     pr.parallel([(task_desolvation, ()), (task_set_determinants, ()), (task_ion_backbone_reorg, ()), (task_smallest, ()),
-                 (task_iterative, ()), (task_probe_far, ()), (C08.task_average_twins, ()), (task_coupled_systems, ()),
+                 (task_iterative, ()), (task_iterative_sweeps, ()), (task_probe_far, ()), (C08.task_average_twins, ()), (task_coupled_systems, ()),
                  # a group's centre lies on its own atoms (never at a fixed point such as the origin, where another part may sit)
                  (task_centres, ())] +
                 # order of the parts in the file: the only state carried from one record to the next is the terminus search, and a
